@@ -448,6 +448,24 @@ pub fn run(ctx: &Ctx) -> Report {
             }
         }
     }
+    // every prefix of some texts (cut at each character, so also inside quotes and numbers), in
+    // increasing length: this process meets them shortest first, the reversed child longest first -
+    // what an earlier call saw of the same text must not matter
+    let mut with_prefixes: Vec<String> = vec![];
+    for t in texts.iter().filter(|t| (t.contains('\'') || t.contains('"')) && t.chars().count() <= 60).take(ctx.tier.pick(40, 400)) {
+        let idx: Vec<usize> = t.char_indices().map(|(i, _)| i).skip(1).collect();
+        for i in idx {
+            with_prefixes.push(t[..i].to_string());
+        }
+        with_prefixes.push(t.clone());
+    }
+    for t in ["-name 'it s' -uid x", "-name \"a b\" -print", "-fprint 'out 1.txt' -o -name 'it''s'", "-printf '%p %s\\n' -name x"] {
+        for (i, _) in t.char_indices().skip(1) {
+            with_prefixes.push(t[..i].to_string());
+        }
+        with_prefixes.push(t.to_string());
+    }
+    texts.extend(with_prefixes);
     match cross_process(&texts, 3) {
         Ok(k) => {
             total.evaluations += k as u64;
@@ -464,7 +482,7 @@ pub fn run(ctx: &Ctx) -> Report {
     total.samples.truncate(6);
     Report {
         stats: total,
-        rule: "random expressions biased to 8..40 distinct matchers/printers (so that hash-table iteration order would show). (a) in one process: parsing the text twice gives equal results; compiling e1, an unrelated e2, then e1 again gives byte-identical programs (embedded epoch normalised) and equal destination tables; (b) the same texts (plus near-duplicates: other blanks inside quotes, formats that are prefixes of one another, strings with quotes/backslashes) are parsed and compiled in three fresh processes (fresh hash seeds), each visiting them in a different order (reversed, strided), and the canonical records must be identical to this process's; (c) every wall-clock second embedded by a time test lies between clock readings taken around the compile call, also in histories of compile calls on one thread in which earlier calls fail after a time test was emitted and the wall clock moves into the next second in between (32 such histories in the quick tier); the number of reference seconds in a program equals the number of time tests of its tree; time tests whose age is within -2..+4 units (s, min, h, d) of the current time since the epoch are compiled in five consecutive seconds and must give the same program up to the embedded second. Non-trivial: >=8 matcher/printer requests. Distinct: by (tree pair) / input text.".into(),
+        rule: "random expressions biased to 8..40 distinct matchers/printers (so that hash-table iteration order would show). (a) in one process: parsing the text twice gives equal results; compiling e1, an unrelated e2, then e1 again gives byte-identical programs (embedded epoch normalised) and equal destination tables; (b) the same texts (plus near-duplicates: other blanks inside quotes, formats that are prefixes of one another, strings with quotes/backslashes; every prefix of 40 texts in increasing length) are parsed and compiled in three fresh processes (fresh hash seeds), each visiting them in a different order (reversed, strided), and the canonical records must be identical to this process's; (c) every wall-clock second embedded by a time test lies between clock readings taken around the compile call, also in histories of compile calls on one thread in which earlier calls fail after a time test was emitted and the wall clock moves into the next second in between (32 such histories in the quick tier); the number of reference seconds in a program equals the number of time tests of its tree; time tests whose age is within -2..+4 units (s, min, h, d) of the current time since the epoch are compiled in five consecutive seconds and must give the same program up to the embedded second. Non-trivial: >=8 matcher/printer requests. Distinct: by (tree pair) / input text.".into(),
         assumptions: vec!["the embedded second is recognised as the first operand of (- N (atime|ctime|mtime))".into()],
         exhaustive: false,
     }
